@@ -45,9 +45,32 @@ def collect(tier, tmp, progs, types, mode="ser", rich=True, nfuel=0, ndfuel=0, m
     for r in runs:
         require(r.ok, f"model-level failure in MC_Proto/{mode} (spec problem, not a code verdict):\n" + r.tail(60))
         recs += [p for p in r.printed if isinstance(p, dict) and "kind" in p]
+        r.printed, r.out = [], ""           # the parsed records are all that is kept of TLC's output
     stats = {"states": sum(r.distinct for r in runs), "transitions": sum(r.generated for r in runs),
              "action_counts": {a: sum(r.coverage.get(a, 0) for r in runs) for a in ("SerStep", "SerReturn", "SerUnwind", "ToDeser", "DeStep", "DeReturn", "DeUnwind")}}
     return recs, stats
+
+
+def program_groups(progs, tier):
+    """Quick: one group.  Thorough: the hand-written programs (they refer to one another) with the first 200 generated ones, then 300 at a time."""
+    if tier == "quick":
+        return [progs]
+    hand = [p for p in progs if not p.get("gen")]
+    gen_ = [p for p in progs if p.get("gen")]
+    groups = [hand + gen_[:200]]
+    for i in range(200, len(gen_), 300):
+        groups.append([hand[0]] + gen_[i:i + 300])           # (the first hand-written program fixes the override order of every tree)
+    return groups
+
+
+def merge_stats(a, b):
+    out = dict(a)
+    for k, val in b.items():
+        if isinstance(val, (int, float)) and not isinstance(val, bool):
+            out[k] = out.get(k, 0) + val
+        elif isinstance(val, dict):
+            out[k] = merge_stats(out.get(k, {}), val)
+    return out
 
 
 def run(tier, corrupt=False):
@@ -55,99 +78,113 @@ def run(tier, corrupt=False):
     types = library()
     with scratch("c02-") as tmp:
         progs = full_corpus(tmp, tier)
-        recs, stats = collect(tier, tmp, progs, types, "ser", invariants=("SerLeavesModeAsFound", "PNoSilentFailure"), properties=("PModeRestored",))
-        require(stats["action_counts"]["SerStep"] > 0 and stats["action_counts"]["SerReturn"] > 0, "vacuity: serializer actions never fired")
-        recs = [r for r in recs if r["kind"] == "ser"]
-        require(len(recs) > 1000, f"too few behaviours from TLC ({len(recs)})")
-        by_prog = {}
-        for r in recs:
-            by_prog.setdefault(r["prog"], 0)
-            by_prog[r["prog"]] += 1
-        missing = [p["name"] for p in progs if p["name"] not in by_prog]
-        require(not missing, f"no behaviour emitted for programs {missing}")
-        # two worlds: defaults implicit / explicit
-        nchecked = 0
-        for variant in ("implicit", "explicit"):
-            vprogs = progs if variant == "implicit" else [explicit_variant(p) for p in progs]
-            with scratch("c02w-") as wt:
-                src, accepted, rejected = prepare_world(wt, vprogs, types)
-                for p, e in rejected:
-                    v.violation(f"generator rejects valid program {p['name']} ({variant} defaults)",
-                                f"the generator raised {type(e).__name__}: {e} for a specification the grammar allows", {"prog": p, "variant": variant})
-                acc = {p["name"] for p in accepted}
-                cases = []
-                for i, r in enumerate(recs):
-                    if r["prog"] in acc:
-                        cases.append({"kind": "ser", "prog": r["prog"], "san0": r["san0"], "fuel": -1, "obj": r["obj"], "salt": i,
-                                      "via_write": (i % 2 == 1)})
-                imp, results = run_drivers_parallel(src, wt, accepted, types, cases)
+        all_progs = progs
+        # the thorough corpus is judged group by group (hand-written programs + 200 generated ones, then 300 generated ones at a time):
+        # the records and observations of 1,500 programs at once do not fit in memory next to anything else
+        groups = program_groups(all_progs, tier)
+        tot = {"stats": None, "nchecked": 0, "nv": 0, "nrecs": 0, "by_prog": {}, "samples": None}
+        for gi, progs in enumerate(groups):
+            recs, stats = collect(tier, tmp, progs, types, "ser", invariants=("SerLeavesModeAsFound", "PNoSilentFailure"), properties=("PModeRestored",))
+            require(stats["action_counts"]["SerStep"] > 0 and stats["action_counts"]["SerReturn"] > 0, "vacuity: serializer actions never fired")
+            recs = [r for r in recs if r["kind"] == "ser"]
+            require(len(recs) > 1000, f"too few behaviours from TLC ({len(recs)})")
+            by_prog = {}
+            for r in recs:
+                by_prog.setdefault(r["prog"], 0)
+                by_prog[r["prog"]] += 1
+            missing = [p["name"] for p in progs if p["name"] not in by_prog]
+            require(not missing, f"no behaviour emitted for programs {missing}")
+            # two worlds: defaults implicit / explicit
+            nchecked = 0
+            for variant in ("implicit", "explicit"):
+                vprogs = progs if variant == "implicit" else [explicit_variant(p) for p in progs]
+                with scratch("c02w-") as wt:
+                    src, accepted, rejected = prepare_world(wt, vprogs, types)
+                    for p, e in rejected:
+                        v.violation(f"generator rejects valid program {p['name']} ({variant} defaults)",
+                                    f"the generator raised {type(e).__name__}: {e} for a specification the grammar allows", {"prog": p, "variant": variant})
+                    acc = {p["name"] for p in accepted}
+                    cases = []
+                    for i, r in enumerate(recs):
+                        if r["prog"] in acc:
+                            cases.append({"kind": "ser", "prog": r["prog"], "san0": r["san0"], "fuel": -1, "obj": r["obj"], "salt": i,
+                                          "via_write": (i % 2 == 1)})
+                    imp, results = run_drivers_parallel(src, wt, accepted, types, cases)
+                    if imp:
+                        v.violation(f"generated package not importable ({variant} defaults)", imp.strip().splitlines()[-1], {"trace": imp})
+                        continue
+                    kept = [r for r in recs if r["prog"] in acc]
+                    for r, c, o in zip(kept, cases, results):
+                        nchecked += 1
+                        if "harness_error" in o:
+                            raise MachineryError(o["harness_error"])
+                        if corrupt and nchecked == 50:
+                            o = dict(o, bytes=o["bytes"] + [1])
+                        key = f"{r['prog']} ({variant}) obj={json.dumps(r['obj'], sort_keys=True)[:300]} san0={r['san0']}"
+                        case = {"prog": r["prog"], "variant": variant, "san0": r["san0"], "obj": r["obj"], "model_bytes": r["bytes"], "observed": {k: o.get(k) for k in ("ctor_exc", "exc", "bytes", "san_end", "family", "action")}}
+                        if o["ctor_exc"]:
+                            v.violation(f"{r['prog']} ({variant}) constructor " + o["ctor_exc"][:60] + " obj=" + json.dumps(r["obj"], sort_keys=True)[:200],
+                                        f"a constructible-by-declaration object cannot be constructed: {o['ctor_exc']}", case)
+                            continue
+                        if o["exc"] != r["exc"]:
+                            v.violation(key, f"serialize raised {o['exc'] or 'nothing'} ({o.get('exc_msg', '')}); the XML semantics give {r['exc'] or 'a complete serialization'}", case)
+                            continue
+                        if o["bytes"] != r["bytes"]:
+                            v.violation(key, f"bytes differ from the wire format the XML prescribes: got {o['bytes']}, expected {r['bytes']}", case)
+                        p = next(q for q in progs if q["name"] == r["prog"])
+                        if p["kind"] == "packet" and (o.get("family") != p["family"] or o.get("action") != p["action"]):
+                            v.violation(f"{r['prog']} family/action", f"reports {o.get('family')}/{o.get('action')}, declared {p['family']}/{p['action']}", case)
+            # ---- pattern V: random larger objects (arrays <= 6, strings <= 12 arbitrary Unicode, random integers), judged by TLC in given-object mode
+            import random
+            rng = random.Random(seed() * 7919 + 2)
+            per = 8 if tier == "quick" else 40
+            nv = 0
+            with scratch("c02v-") as wt:
+                src, accepted, rejected = prepare_world(wt, progs, types)
+                ctypes = {**types, **{p["name"]: {"kind": "struct", "dir": p["dir"], "code": p["code"]} for p in progs if p["kind"] == "struct"}}
+                gen = Gen(ctypes, rng)
+                idx = {p["name"]: i + 1 for i, p in enumerate(progs)}
+                vcases = []
+                for p in accepted:
+                    for _ in range(per):
+                        vcases.append({"p": idx[p["name"]], "obj": gen.obj(p["code"], p["name"]), "san0": rng.random() < 0.3})
+                    if '"tag": "length"' in json.dumps(p["code"]):
+                        gen.boundary = True        # as many items as each byte/char length field can carry
+                        vcases.append({"p": idx[p["name"]], "obj": gen.obj(p["code"], p["name"]), "san0": False})
+                        gen.boundary = False
+                model = tlc_given(tmp, progs, types, vcases, "given")
+                dcases = [{"kind": "ser", "prog": progs[c["p"] - 1]["name"], "san0": c["san0"], "fuel": -1, "obj": c["obj"], "salt": i} for i, c in enumerate(vcases)]
+                imp, results = run_drivers_parallel(src, wt, accepted, types, dcases)
                 if imp:
-                    v.violation(f"generated package not importable ({variant} defaults)", imp.strip().splitlines()[-1], {"trace": imp})
-                    continue
-                kept = [r for r in recs if r["prog"] in acc]
-                for r, c, o in zip(kept, cases, results):
-                    nchecked += 1
+                    v.violation("generated package not importable", imp.strip().splitlines()[-1], {"trace": imp})
+                    results = []
+                for c, m, o in zip(vcases, model, results):
+                    nv += 1
                     if "harness_error" in o:
                         raise MachineryError(o["harness_error"])
-                    if corrupt and nchecked == 50:
-                        o = dict(o, bytes=o["bytes"] + [1])
-                    key = f"{r['prog']} ({variant}) obj={json.dumps(r['obj'], sort_keys=True)[:300]} san0={r['san0']}"
-                    case = {"prog": r["prog"], "variant": variant, "san0": r["san0"], "obj": r["obj"], "model_bytes": r["bytes"], "observed": {k: o.get(k) for k in ("ctor_exc", "exc", "bytes", "san_end", "family", "action")}}
+                    prog = progs[c["p"] - 1]["name"]
+                    key = f"{prog} (random) obj={json.dumps(c['obj'], sort_keys=True)[:300]} san0={c['san0']}"
+                    case = {"prog": prog, "san0": c["san0"], "obj": c["obj"], "model": {"exc": m["exc"], "bytes": m["bytes"]}, "observed": {k: o.get(k) for k in ("ctor_exc", "exc", "bytes", "san_end")}}
                     if o["ctor_exc"]:
-                        v.violation(f"{r['prog']} ({variant}) constructor " + o["ctor_exc"][:60] + " obj=" + json.dumps(r["obj"], sort_keys=True)[:200],
-                                    f"a constructible-by-declaration object cannot be constructed: {o['ctor_exc']}", case)
-                        continue
-                    if o["exc"] != r["exc"]:
-                        v.violation(key, f"serialize raised {o['exc'] or 'nothing'} ({o.get('exc_msg', '')}); the XML semantics give {r['exc'] or 'a complete serialization'}", case)
-                        continue
-                    if o["bytes"] != r["bytes"]:
-                        v.violation(key, f"bytes differ from the wire format the XML prescribes: got {o['bytes']}, expected {r['bytes']}", case)
-                    p = next(q for q in progs if q["name"] == r["prog"])
-                    if p["kind"] == "packet" and (o.get("family") != p["family"] or o.get("action") != p["action"]):
-                        v.violation(f"{r['prog']} family/action", f"reports {o.get('family')}/{o.get('action')}, declared {p['family']}/{p['action']}", case)
-        # ---- pattern V: random larger objects (arrays <= 6, strings <= 12 arbitrary Unicode, random integers), judged by TLC in given-object mode
-        import random
-        rng = random.Random(seed() * 7919 + 2)
-        per = 8 if tier == "quick" else 40
-        nv = 0
-        with scratch("c02v-") as wt:
-            src, accepted, rejected = prepare_world(wt, progs, types)
-            ctypes = {**types, **{p["name"]: {"kind": "struct", "dir": p["dir"], "code": p["code"]} for p in progs if p["kind"] == "struct"}}
-            gen = Gen(ctypes, rng)
-            idx = {p["name"]: i + 1 for i, p in enumerate(progs)}
-            vcases = []
-            for p in accepted:
-                for _ in range(per):
-                    vcases.append({"p": idx[p["name"]], "obj": gen.obj(p["code"], p["name"]), "san0": rng.random() < 0.3})
-                if '"tag": "length"' in json.dumps(p["code"]):
-                    gen.boundary = True        # as many items as each byte/char length field can carry
-                    vcases.append({"p": idx[p["name"]], "obj": gen.obj(p["code"], p["name"]), "san0": False})
-                    gen.boundary = False
-            model = tlc_given(tmp, progs, types, vcases, "given")
-            dcases = [{"kind": "ser", "prog": progs[c["p"] - 1]["name"], "san0": c["san0"], "fuel": -1, "obj": c["obj"], "salt": i} for i, c in enumerate(vcases)]
-            imp, results = run_drivers_parallel(src, wt, accepted, types, dcases)
-            if imp:
-                v.violation("generated package not importable", imp.strip().splitlines()[-1], {"trace": imp})
-                results = []
-            for c, m, o in zip(vcases, model, results):
-                nv += 1
-                if "harness_error" in o:
-                    raise MachineryError(o["harness_error"])
-                prog = progs[c["p"] - 1]["name"]
-                key = f"{prog} (random) obj={json.dumps(c['obj'], sort_keys=True)[:300]} san0={c['san0']}"
-                case = {"prog": prog, "san0": c["san0"], "obj": c["obj"], "model": {"exc": m["exc"], "bytes": m["bytes"]}, "observed": {k: o.get(k) for k in ("ctor_exc", "exc", "bytes", "san_end")}}
-                if o["ctor_exc"]:
-                    v.violation(f"{prog} (random) constructor {o['ctor_exc'][:60]}", f"object cannot be constructed: {o['ctor_exc']}", case)
-                elif (o["exc"] != "") != (m["exc"] != ""):
-                    v.violation(key, f"serialize {'raised ' + o['exc'] if o['exc'] else 'completed'}; the XML semantics {'refuse the object (' + m['exc'] + ')' if m['exc'] else 'give a complete serialization'}", case)
-                elif not m["exc"] and o["bytes"] != m["bytes"]:
-                    v.violation(key, f"bytes differ from the wire format the XML prescribes: got {o['bytes']}, expected {m['bytes']}", case)
+                        v.violation(f"{prog} (random) constructor {o['ctor_exc'][:60]}", f"object cannot be constructed: {o['ctor_exc']}", case)
+                    elif (o["exc"] != "") != (m["exc"] != ""):
+                        v.violation(key, f"serialize {'raised ' + o['exc'] if o['exc'] else 'completed'}; the XML semantics {'refuse the object (' + m['exc'] + ')' if m['exc'] else 'give a complete serialization'}", case)
+                    elif not m["exc"] and o["bytes"] != m["bytes"]:
+                        v.violation(key, f"bytes differ from the wire format the XML prescribes: got {o['bytes']}, expected {m['bytes']}", case)
+            tot["nchecked"] += nchecked
+            tot["nv"] += nv
+            tot["nrecs"] += len(recs)
+            tot["by_prog"].update(by_prog)
+            if tot["samples"] is None:
+                tot["samples"] = [{"prog": recs[0]["prog"], "obj": recs[0]["obj"], "bytes": recs[0]["bytes"]}, {"prog": recs[-1]["prog"], "obj": recs[-1]["obj"], "bytes": recs[-1]["bytes"]}]
+            tot["stats"] = stats if tot["stats"] is None else merge_stats(tot["stats"], stats)
+            del recs, results, model
+        progs, stats, nchecked, nv, by_prog = all_progs, tot["stats"], tot["nchecked"], tot["nv"], tot["by_prog"]
     cov = dict(stats)
     cov["random_objects_validated"] = nv
-    cov.update({"traces_validated_against_impl": nchecked + nv, "programs": len(progs), "behaviours_from_tlc": len(recs),
+    cov.update({"traces_validated_against_impl": nchecked + nv, "programs": len(progs), "behaviours_from_tlc": tot["nrecs"], "program_groups": len(groups),
                 "behaviours_per_program": by_prog,
-                "samples": [{"prog": recs[0]["prog"], "obj": recs[0]["obj"], "bytes": recs[0]["bytes"]},
-                            {"prog": recs[-1]["prog"], "obj": recs[-1]["obj"], "bytes": recs[-1]["bytes"]}],
+                "samples": tot["samples"],
                 "exhaustive": False,
                 "explanation": "all objects of the bounded value domains (MCDoms RICH) x both entry modes for every program of the corpus; "
                                "each replayed against the generated code in two spellings of the boolean defaults"})
